@@ -7,6 +7,8 @@
 package histex
 
 import (
+	"github.com/hugelgupf/p9/p9"
+
 	"fmt"
 	"runtime"
 	"sort"
@@ -166,7 +168,12 @@ func RunHistory(cfg *Config, hist []int, checkAll bool) taskResult {
 	if !model.Poisoned {
 		res.issues = append(res.issues, liveIssues(fs, model, cfg, hist)...)
 	}
-	res.key = model.Key() + "\n" + fs.Dump() + "\n" + srv.VerifTreeShape() + "\n" + liveKey(fs)
+	// The key includes what the wire does not show of the server's fid tables
+	// (open flags, pending xattr operation and the bytes accumulated for it):
+	// a refused request that silently changes such state must not be merged
+	// with the state before it.
+	res.key = model.Key() + "\n" + fs.Dump() + "\n" + srv.VerifTreeShape() + "\n" + liveKey(fs) + "\n" + srv.VerifFidTables()
+	srv.VerifForget()
 	if model.Poisoned {
 		res.key = "poisoned" // one terminal state: never expanded further
 		res.poisoned = true
@@ -264,6 +271,9 @@ type Params struct {
 
 // Explore runs the BFS and folds results into rep.
 func Explore(ctx *fw.Ctx, rep *fw.Report, cfg *Config) {
+	// state keys include the server's fid tables (see RunHistory)
+	p9.VerifTrackConns = true
+	defer func() { p9.VerifTrackConns = false }()
 	if ctx.Replay != nil {
 		var p Params
 		if err := jsonUnmarshal(ctx.Replay.Params, &p); err != nil || p.Config != cfg.Name {
